@@ -29,11 +29,11 @@ Definition label_type_peek (m : bytes) (pos : N) : outcome ltype :=
   | None => Panic P_INDEX
   | Some b =>
       if b <=? pk_normal_max then Ok (LNormal b)
-      else if (pk_ptr_min <=? b) && (b <=? pk_ptr_max) then
+      else if pk_ptr_min <=? b then
         if mlen m - pos <? 2 then Err E_SHORT else
         match get m (pos + 1) with
         | None => Panic P_INDEX
-        | Some c => Ok (LCompressed (ptr_bits pk_ptr_mask pk_ptr_shift b c))
+        | Some c => Ok (LCompressed (c + 256 * (b mod 64)))   (* pk_ptr_mask / pk_ptr_shift: Proofs4.gen_matches_peek *)
         end
       else Err E_BADLABEL
   end.
@@ -143,16 +143,27 @@ Fixpoint split_all (fuel : nat) (m : bytes) (p : pname) (acc : list bytes) : out
 Record name_ops := mkOps {
   no_rev : list label;              (* iter().rev() *)
   no_split : list bytes;            (* split_first() until None *)
-  no_suffixes : list (N * N);       (* iter_suffixes(): (pos, len) of each *)
+  no_suffixes : list (N * label);   (* iter_suffixes(): (compose_len, first label) of each *)
   no_flat : option bytes            (* as_flat_slice() *)
 }.
+
+(* ParsedName::first() of every suffix (iter().next().unwrap()) *)
+Fixpoint first_labels (m : bytes) (l : list pname) : outcome (list (N * label)) :=
+  match l with
+  | [] => Ok []
+  | q :: t =>
+      do r <- get_label (S (length m)) m (pn_pos q);
+      do rest <- first_labels m t;
+      Ok ((pn_len q, fst r) :: rest)
+  end.
 
 Definition name_ops_of (m : bytes) (p : pname) : outcome name_ops :=
   do r <- pname_rev_labels m p;
   do s <- split_all PARSE_FUEL m p [];
   do x <- iter_suffixes m p;
   do f <- as_flat_slice m p;
-  Ok (mkOps r s (map (fun q => (pn_pos q, pn_len q)) x) f).
+  do fl <- first_labels m x;
+  Ok (mkOps r s fl f).
 
 (* driver entry: parse a name, then run the derived operations on it *)
 Definition c01_pops (m : bytes) (pos lim : N) : outcome name_ops :=
@@ -383,6 +394,11 @@ Fixpoint run_ops (m : bytes) (st : list sect) (ops : list op) : outcome (list re
 Definition read_ops (m : bytes) (ops : list op) : outcome (option (list res)) :=
   if negb (from_octets_ok m) then Ok None
   else do r <- run_ops m [] ops; Ok (Some r).
+
+(* Message::is_answer against another message *)
+Definition c01_isans (m q : bytes) : outcome (option bool) :=
+  if negb (from_octets_ok m) || negb (from_octets_ok q) then Ok None
+  else do b <- is_answer m q; Ok (Some b).
 
 Definition c01_xfr (m : bytes) : outcome (option N) :=
   if negb (from_octets_ok m) then Ok None else do r <- xfr_first m; Ok (Some r).
